@@ -17,9 +17,29 @@ ASSUME = [
 ]
 
 
+RULE_T = ("concurrent use: one case = one seed = 2-4 generated models of different sizes + one damaged file (truncation or raised size field) x "
+          "2-4 simulated threads, each with 1-4 seeded operations (load a buffer and save it again / load, mj_copyModel, save / load and "
+          "mj_sizeModel / save a shared source model) x schedule (random/sticky/PCT/starve, basic-block preemption 0.01%-10%); every result "
+          "must equal the result of the same operation executed alone (identical bytes for intact files, NULL for the damaged one); the simtsan "
+          "stage runs the same cases under ThreadSanitizer")
+
+
 def run(tier):
+    import time
+    import common as C
+    import e1
+    t0 = time.time()
     if tier == "quick":
         plan = [dict(variant="asan", runs=48, label="asan", args=["--maxtrunc", "3000", "--maxcorrupt", "2000"], timeout=400)]
+        tplan = [dict(variant="sim", runs=1600, label="concurrent-loads-sim", timeout=200), dict(variant="simtsan", runs=320, label="concurrent-loads-simtsan", timeout=200)]
     else:
         plan = [dict(variant="asan", runs=3000, label="asan", args=["--maxtrunc", "20000", "--maxcorrupt", "12000"], timeout=3400)]
-    return nat.run_native("C31", tier, "c31.cc", plan, "fault_enumeration", RULE, ASSUME, nops=0, nmodel=80, engine="faultsim")
+        tplan = [dict(variant="sim", runs=160000, label="concurrent-loads-sim", timeout=3400), dict(variant="simtsan", runs=32000, label="concurrent-loads-simtsan", timeout=3400)]
+    rc1 = nat.run_native("C31", tier, "c31.cc", plan, "fault_enumeration", RULE, ASSUME, nops=0, nmodel=80, engine="faultsim")
+    ev1 = C.load_evidence("C31")
+    rc2 = e1.run_e1("C31", tier, "c31t.cc", tplan, nops=12, rule=RULE_T, assumptions=ASSUME, design_ref="4/C31")
+    ev2 = C.load_evidence("C31")
+    if ev2:
+        ev2["level"] = "fault_enumeration"
+    C.merge_evidence("C31", [ev1, ev2], RULE + " || " + RULE_T, t0)
+    return 1 if 1 in (rc1, rc2) else 2 if 2 in (rc1, rc2) else 0
